@@ -393,6 +393,20 @@ class C01:
                 if k in excluded or k in out:
                     continue
                 out[k] = ("from_super", k, v)
+        # a keyword that one path does not give (a keyword dictionary filled conditionally) takes the field's default there
+        if target is not None and any(x == ("absent",) for v in out.values() for x in walk(v)):
+            fm_ = self.ctx.models.field_map(target) if self.ctx.models.is_model(target) else {}
+            for k in list(out):
+                if not any(x == ("absent",) for x in walk(out[k])):
+                    continue
+                fi_ = fm_.get(k)
+                dflt = None
+                if fi_ is not None and fi_.default is not None and isinstance(fi_.default, ast.Constant):
+                    dflt = ("const", fi_.default.value)
+                elif fi_ is not None and fi_.default_factory is not None and isinstance(fi_.default_factory, ast.Name) and fi_.default_factory.id in ("list", "dict"):
+                    dflt = (fi_.default_factory.id, ())
+                if dflt is not None:
+                    out[k] = subst(out[k], {("absent",): dflt})
         return target, out, summ, owner, rets[0]
 
     def _spread_source(self, val, meth):
@@ -592,6 +606,8 @@ class C01:
             for x in walk(t_):
                 if x[0] == "call" and x[1][0] == "attr" and x[1][2] == meth_ and x[1][1][0] == "attr" and x[1][1][1] == ("param", "self"):
                     out_.add(x[1][1][2])
+                elif x[0] == "call" and x[1][0] == "attr" and x[1][2] == meth_ and x[1][1] == ("param", "self"):
+                    out_.add("(self)")  # the adapter's own store (a sequence's parent is a sequence)
             return out_
         for f in Df:
             if f not in rk:
@@ -1025,6 +1041,52 @@ class C01:
                         out += self._registrations_of(col, c)
                         break
                 continue
+            # table-driven registration: helper([(obj.users, self.user_adapter), ...]) where the helper registers every element of
+            # each list with the adapter it is paired with, in the order of the table
+            if t[1][0] == "global" and t[1][2] == "func" and len(t[2]) == 1 and t[2][0][0] in ("list", "tuple") and t[2][0][1] \
+                    and all(p_[0] == "tuple" and len(p_[1]) == 2 for p_ in t[2][0][1]):
+                try:
+                    hs = self.ctx.summ.of_func(*t[1][1].split(":"))
+                except Exception:  # noqa: BLE001
+                    hs = None
+                pairs_ok = False
+                if hs is not None and len(hs.params) == 1:
+                    for he in hs.calls:
+                        ht = he.term
+                        if ht[1][0] == "attr" and ht[1][2] == "to_soundevent" and len(ht[2]) == 1 and ht[2][0][0] == "elem" and len(he.loops) == 2:
+                            Lo, Li = hs.loops[he.loops[0]], hs.loops[he.loops[1]]
+                            eo = ("elem", Lo.id)
+                            it_i = Li.iter[1][0] if Li.iter[0] == "or" and Li.iter[1][1:] == (("list", ()),) else Li.iter
+                            if Lo.iter == ("param", hs.params[0]) and it_i == ("sub", eo, ("const", 0)) and ht[1][1] == ("sub", eo, ("const", 1)) \
+                                    and ht[2][0] == ("elem", Li.id):
+                                pairs_ok = True
+                if pairs_ok:
+                    for p_ in t[2][0][1]:
+                        lst, ad = p_[1]
+                        a_ = self.ao.self_attr(ad)
+                        reads = attr_reads(lst, robj)
+                        out.append({"attr": a_ or "?", "field": reads[0] if len(reads) == 1 else None,
+                                    "site": f"{owner.module.relpath}:{e.lineno} {owner.name}.to_soundevent", "owner": owner, "line": e.lineno,
+                                    "iter": lst, "robj": robj, "live": e.live})
+                    continue
+            # the same, with the helper's loops spliced into this function: `pair[1].to_soundevent(x) for x in pair[0]` for each pair of a
+            # literal table of (list, adapter) pairs
+            if t[1][0] == "attr" and t[1][2] == "to_soundevent" and len(t[2]) == 1 and t[2][0][0] == "elem" and len(e.loops) >= 2 \
+                    and t[1][1][0] == "sub" and t[1][1][2] == ("const", 1) and t[1][1][1] == ("elem", e.loops[-2]):
+                Lo, Li = s.loops[e.loops[-2]], s.loops[e.loops[-1]]
+                eo = ("elem", Lo.id)
+                it_i = Li.iter[1][0] if Li.iter[0] == "or" and Li.iter[1][1:] == (("list", ()),) else Li.iter
+                tab = Lo.iter
+                if tab[0] in ("list", "tuple") and tab[1] and all(p_[0] == "tuple" and len(p_[1]) == 2 for p_ in tab[1]) \
+                        and it_i == ("sub", eo, ("const", 0)) and t[2][0] == ("elem", Li.id):
+                    for p_ in tab[1]:
+                        lst, ad = p_[1]
+                        a_ = self.ao.self_attr(ad)
+                        reads = attr_reads(lst, robj)
+                        out.append({"attr": a_ or "?", "field": reads[0] if len(reads) == 1 else None,
+                                    "site": f"{owner.module.relpath}:{e.lineno} {owner.name}.to_soundevent", "owner": owner, "line": e.lineno,
+                                    "iter": lst, "robj": robj, "live": e.live})
+                    continue
             mc = self.ao.method_call(t)
             if not mc or mc[1] != "to_soundevent" or not mc[0]:
                 continue
@@ -1259,8 +1321,17 @@ class C01:
                     s.node.lineno)
         f = ctx.summ.of_func(ADAPTERS_MOD, "DataAdapter.from_id")
         oid = ("param", f.params[1])
+        # other spellings of the optional lookup, decided on the two scenarios of the store: present -> the stored object, absent -> None
+        scf = scenarios(f, store, oid)
+        def outcome(sc_):
+            return [t_ for _, l_, t_ in sc_.returns if l_ == TRUE]
+        by_scenario = (len(f.returns) >= 1 and not scf["present"].writes and not scf["absent"].writes
+                       and outcome(scf["present"]) == [("sub", store, oid)] and outcome(scf["absent"]) == [NONE]
+                       and not scf["present"].undetermined and not scf["absent"].undetermined)
         if len(f.returns) == 1 and f.returns[0].term in (("call", ("attr", store, "get"), (oid,), ()), ("call", ("attr", store, "get"), (oid, NONE), ())):
             ctx.ok("R01.7", f"{file}:{f.node.lineno} DataAdapter.from_id", "from_id(id) = _soundevent_store.get(id)")
+        elif by_scenario:
+            ctx.ok("R01.7", f"{file}:{f.node.lineno} DataAdapter.from_id", "from_id(id): the stored object when the id is registered, None otherwise")
         else:
             ctx.bad("R01.7", file, "DataAdapter.from_id", f"return {show(f.returns[0].term)[:60] if f.returns else '-'}",
                     "from_id must look the id up in the store filled by to_soundevent", f.node.lineno)
